@@ -12,7 +12,7 @@ for d in benign/B*/r*; do
   case "$files" in *pkg/controller/node_group.go*|*pkg/controller/util.go*|*pkg/controller/sort.go*) props="C12 C13 C14 C16 C05 C08 C20";; *pkg/controller/*) props="C01 C06 C12 C20";; esac
   case "$files" in *pkg/k8s/scheduler*|*pkg/k8s/pod_listers*|*pkg/k8s/node_listers*|*pkg/k8s/resource*) props="C13 C12 C20";; *pkg/k8s/*) props="C01 C13 C15 C20";; esac
   case "$files" in *pkg/cloudprovider/aws*) props="C07 C17 C18 C19 C20";; esac
-  res=$(./tools/trybenign.sh $d $props 2>&1 | grep -E 'FAILED|UNGEN|VACUOUS|MISSING|UNDECIDED|PATCH|BUILD' | cut -c1-160 | tr '\n' ';')
+  res=$(./tools/trybenign.sh /verif/$d $props 2>&1 | grep -E 'FAILED|UNGEN|VACUOUS|MISSING|UNDECIDED|PATCH|BUILD' | cut -c1-160 | tr '\n' ';')
   [ -z "$res" ] && res="none"
   echo "| ${d#benign/} | $kind | $props | $res |" >> $out
   echo "${d#benign/}: $res"
